@@ -440,13 +440,16 @@ COMP_TARGETS = {
     'st-para': ['include <abstractions/base>', '', '@{exec_path} mr,', '', '/etc/st-para.a r,', '', '#aa:only verif-no-such-target', '/etc/st-para.guarded r,', '/etc/st-para.guarded2 r,', '',
                 '/etc/st-para.b r,', '', '/etc/st-para.c r,'],
 }
+COMP_TARGETS['st-exec-dir'] = ['include <abstractions/base>', '', '@{exec_path} mr,', '', '/etc/st-exec-dir r,', '', '#aa:exec gen-t1']
 # what must / must not be in the output whenever the line is in the host (independent of the real code)
-COMP_EXPECT = {'stack-para': (['/etc/st-para.a r,', '/etc/st-para.b r,', '/etc/st-para.c r,', 'include if exists <local/st-para>'], ['/etc/st-para.guarded r,', '/etc/st-para.guarded2 r,'])}
+COMP_EXPECT = {'stack-exec-dir': (['/etc/st-exec-dir r,'], ['/{,usr/}{,s}bin/gen-t1 Px,']),       # a stack without X adds no exec transition
+               'stack-para': (['/etc/st-para.a r,', '/etc/st-para.b r,', '/etc/st-para.c r,', 'include if exists <local/st-para>'], ['/etc/st-para.guarded r,', '/etc/st-para.guarded2 r,'])}
 COMP_LINES = {
     'stack-dir': '  #aa:stack st-dir',
     'stack-plain': '  #aa:stack st-plain',
     'stack-chain': '  #aa:stack st-chain',
     'stack-para': '  #aa:stack st-para',
+    'stack-exec-dir': '  #aa:stack st-exec-dir',
     'dbus': '  #aa:dbus own bus=session name=org.example.Host',
     'exec': '  #aa:exec gen-t1',
     'only': '  /etc/host.only r, #aa:only arch',
@@ -517,10 +520,12 @@ def composition_part(rn, tier, ev, fnd):
         got = Counter(l.strip() for l in r['out'].split('\n') if l.strip())
         for t in s:
             must, mustnot = COMP_EXPECT.get(t, ([], []))
-            lost = [l for l in must if l not in got]; kept = [l for l in mustnot if l in got]
+            lost = [l for l in must if l not in got]
+            kept = [l for l in mustnot if l in got and not (t == 'stack-exec-dir' and 'exec' in s)]     # the host's own `#aa:exec gen-t1` yields that line legitimately
             if lost or kept:
-                fnd.report('composition-guarded-paragraph-in-stacked-profile lost=%d kept=%d' % (bool(lost), bool(kept)),
-                           '%s: a guarded paragraph inside the stacked profile: unguarded lines %s are lost, guarded lines %s survive' % (where, lost, kept), {'text': comp_host(s), 'out': r['out']})
+                fnd.report('composition-%s lost=%d kept=%d' % ('guarded-paragraph-in-stacked-profile' if t == 'stack-para' else 'exec-directive-in-stacked-profile', bool(lost), bool(kept)),
+                           '%s: %s: expected lines %s are lost, lines that must not be there %s are' % (where, 'a guarded paragraph inside the stacked profile' if t == 'stack-para' else 'an exec directive inside a profile stacked without X', lost, kept),
+                           {'text': comp_host(s), 'out': r['out']})
         if any(t in COMP_EXPECT for t in s):
             continue            # judged by the explicit expectation above (the sum would only repeat a finding of it)
         want = Counter(fixed)
